@@ -1,8 +1,157 @@
 import RoaringModel.Driver.Core
-/-! Driver handlers: family `Iter32` (stub — replaced when the family's model exists) -/
+/-! Driver handlers: family `Iter32` — 32-bit iterators (C03)
+
+```
+iter bN iK | into_iter bN iK | range bN lo hi iK -> ok|panic | into_range bN lo hi iK -> ok|panic | iclone iK iL
+next|next_back iK -> v|none | nth|nth_back iK n -> v|none | advance_to|advance_back_to iK v -> ok
+size_hint iK -> lo,hi | ilen iK -> n | count iK -> n (consumes)
+fold|rfold iK -> n=<count> h=<fnv of the visited elements, in visiting order> (consumes)
+drain_fwd|drain_rev iK -> same format, through repeated next / next_back (consumes)
+```
+`iter`/`into_iter` (and `range`/`into_range`) are the same model code; `into_*` additionally consumes the
+bitmap slot on the Rust side only in the sense of moving a clone, so the slot stays usable on both sides.
+-/
 namespace Roaring.Driver
 open Roaring
 
-def opsIter32 : Handler := fun _ _ => none
+/-- the accumulator of the order-sensitive hash: (FNV state, number of elements) -/
+abbrev HAcc := UInt64 × Nat
+def hStep (a : HAcc) (x : Nat) : HAcc := (fnvStep a.1 x, a.2 + 1)
+def hInit : HAcc := (fnvBasis, 0)
+def showH (a : HAcc) : String := s!"n={a.2} h={hex64 a.1.toNat}"
+
+def showSizeHint (r : Nat × Option Nat) : String := s!"{r.1},{showOpt r.2}"
+
+/-- repeated `next` until `None` (the driver-level loop of `drain_fwd`) -/
+partial def drainFwd (it : Iter) (a : HAcc) : HAcc :=
+  match it.next with
+  | (_, none) => a
+  | (it', some x) => drainFwd it' (hStep a x)
+partial def drainRev (it : Iter) (a : HAcc) : HAcc :=
+  match it.nextBack with
+  | (_, none) => a
+  | (it', some x) => drainRev it' (hStep a x)
+
+/-! ### path tags (coverage measurement only: printed after ` | `, which the set-projection of `bin/check`
+     drops before comparing with the implementation) -/
+
+def tagBIterAdvanceTo (it : BIter) (index : Nat) : String :=
+  let nk := wkey index
+  if nk < it.key then "B:before-front-word"
+  else if nk = it.key then "B:front-word"
+  else if nk < it.keyBack then "B:between"
+  else if nk = it.keyBack then "B:back-word"
+  else "B:past-back"
+
+def tagBIterAdvanceBackTo (it : BIter) (index : Nat) : String :=
+  let nk := wkey index
+  if nk > it.keyBack then "B:after-back-word"
+  else if nk = it.keyBack then (if it.keyBack ≤ it.key then "B:back-word-live-front" else "B:back-word")
+  else if nk > it.key then "B:between"
+  else if nk = it.key then "B:front-word"
+  else "B:before-front"
+
+def tagCIter (fwd : Bool) (c : CIter) (index : Nat) : String :=
+  match c.inner with
+  | .array w =>
+    let k := if fwd then Win.partitionPoint (fun i => decide (i < index)) w
+             else w.length - Win.partitionPoint (fun i => decide (i ≤ index)) w
+    if k = 0 then "A:skip0" else if k < w.length then "A:skip-some" else "A:skip-all"
+  | .bitmap b => if fwd then tagBIterAdvanceTo b index else tagBIterAdvanceBackTo b index
+
+/-- which arms of `advance_to_impl` (fwd) / `advance_back_to_impl` run -/
+def tagAdvance (fwd : Bool) (it : Iter) (n : Nat) : String :=
+  let key := Bitmap.hi16 n
+  let index := Bitmap.lo16 n
+  let near := if fwd then it.front else it.back
+  let far := if fwd then it.back else it.front
+  let beyond (a b : Nat) : Bool := if fwd then a < b else a > b      -- `a` is on the near side of `b`
+  let rest : String :=
+    match Bitmap.search it.containers key with
+    | (true, i) => "mid=ok " ++ (match it.containers[i]? with
+        | some c => tagCIter fwd (CIter.ofContainer c) index
+        | none => "?")
+    | (false, i) =>
+      let allSkipped := if fwd then i == it.containers.length else i == 0
+      if !allSkipped then "mid=err-more"
+      else "mid=err-all " ++ (match far with
+        | none => "far=none"
+        | some b => if beyond key b.key then "far=untouched"
+                    else if key = b.key then "far=equal " ++ tagCIter fwd b index
+                    else "far=cleared")
+  match near with
+  | none => "near=none " ++ rest
+  | some f =>
+    if beyond key f.key then "near=untouched"
+    else if key = f.key then "near=equal " ++ tagCIter fwd f index
+    else "near=cleared " ++ rest
+
+def parseISlot (t : String) : Option Nat := (parseSlot 'i' t).filter (· < 64)
+
+def opsIter32 : Handler := fun st toks =>
+  let b? (t : String) := (parseSlot 'b' t).bind fun i => (st.getB i)
+  let i? (t : String) := (parseISlot t).bind fun i => (st.getI i).map fun s => (i, s)
+  let item (k : Nat) (r : Iter × Option Nat) (q : Spec.Cursor × Option Nat) : Option (DState × String) :=
+    some (st.setI k (some ⟨r.1, q.1⟩), specMark (showOpt r.2) (showOpt q.2))
+  let mkIter (b k : String) : Option (DState × String) := do
+    let sl ← b? b; let k ← parseISlot k
+    pure (st.setI k (some ⟨Bitmap.iter sl.m, sl.s⟩), "ok")
+  let mkRange (b lo hi k : String) : Option (DState × String) := do
+    let sl ← b? b; let lo ← parseBound lo; let hi ← parseBound hi; let k ← parseISlot k
+    match Bitmap.range sl.m lo hi, Spec.range sl.s lo hi with
+    | some it, some c => pure (st.setI k (some ⟨it, c⟩), "ok")
+    | none, none => pure (st, "panic")
+    | some _, none => pure (st, specMark "ok" "panic")
+    | none, some _ => pure (st, specMark "panic" "ok")
+  match toks with
+  | ["iter", b, k] => mkIter b k
+  | ["into_iter", b, k] => mkIter b k
+  | ["range", b, lo, hi, k] => mkRange b lo hi k
+  | ["into_range", b, lo, hi, k] => mkRange b lo hi k
+  | ["iclone", a, d] => do
+    let (_, sl) ← i? a; let d ← parseISlot d
+    pure (st.setI d (some sl), "ok")
+  | ["next", a] => do
+    let (k, sl) ← i? a
+    item k sl.m.next (Spec.Cursor.next sl.s)
+  | ["next_back", a] => do
+    let (k, sl) ← i? a
+    item k sl.m.nextBack (Spec.Cursor.nextBack sl.s)
+  | ["nth", a, n] => do
+    let (k, sl) ← i? a; let n ← parseU64 n
+    item k (sl.m.nth n) (Spec.Cursor.nth sl.s n)
+  | ["nth_back", a, n] => do
+    let (k, sl) ← i? a; let n ← parseU64 n
+    item k (sl.m.nthBack n) (Spec.Cursor.nthBack sl.s n)
+  | ["advance_to", a, v] => do
+    let (k, sl) ← i? a; let v ← parseU32 v
+    pure (st.setI k (some ⟨sl.m.advanceTo v, Spec.Cursor.advanceTo sl.s v⟩), "ok | " ++ tagAdvance true sl.m v)
+  | ["advance_back_to", a, v] => do
+    let (k, sl) ← i? a; let v ← parseU32 v
+    pure (st.setI k (some ⟨sl.m.advanceBackTo v, Spec.Cursor.advanceBackTo sl.s v⟩), "ok | " ++ tagAdvance false sl.m v)
+  | ["size_hint", a] => do
+    let (_, sl) ← i? a
+    pure (st, specMark (showSizeHint sl.m.sizeHint) (showSizeHint (Spec.Cursor.sizeHint sl.s)))
+  | ["ilen", a] => do
+    let (_, sl) ← i? a
+    match sl.m.len? with
+    | some n => pure (st, specMark (toString n) (toString sl.s.length))
+    | none => pure (st, specMark "panic" (toString sl.s.length))
+  | ["count", a] => do
+    let (k, sl) ← i? a
+    pure (st.setI k none, specMark (toString sl.m.count) (toString (Spec.Cursor.count sl.s)))
+  | ["fold", a] => do
+    let (k, sl) ← i? a
+    pure (st.setI k none, specMark (showH (sl.m.fold hInit hStep)) (showH (Spec.Cursor.fold sl.s hInit hStep)))
+  | ["rfold", a] => do
+    let (k, sl) ← i? a
+    pure (st.setI k none, specMark (showH (sl.m.rfold hInit hStep)) (showH (Spec.Cursor.rfold sl.s hInit hStep)))
+  | ["drain_fwd", a] => do
+    let (k, sl) ← i? a
+    pure (st.setI k none, specMark (showH (drainFwd sl.m hInit)) (showH (Spec.Cursor.fold sl.s hInit hStep)))
+  | ["drain_rev", a] => do
+    let (k, sl) ← i? a
+    pure (st.setI k none, specMark (showH (drainRev sl.m hInit)) (showH (Spec.Cursor.rfold sl.s hInit hStep)))
+  | _ => none
 
 end Roaring.Driver
